@@ -518,8 +518,37 @@ def _layer_expected(d, nb):
     return exp
 
 
+def _layer_expected_nobias(sit, d, nb):
+    w = make_tt(sit, "W", True, d)
+    L = iter("abcdefghijklmnopqrstuvwxyz")
+    batch = [next(L) for _ in range(nb)]
+    ops, rows, cols = [], [], []
+    bond = next(L)
+    for k in range(d):
+        m, n, nbond = next(L), next(L), next(L)
+        ops.append((sit.core(w, k), bond + m + n + nbond))
+        rows.append(m)
+        cols.append(n)
+        bond = nbond
+    sizes = [P.atom(f"B{j}") for j in range(nb)] + [mode_atom(sit, "N", "W", P.const(k)) for k in range(d)]
+    v = net.atom_tensor(sit.sp, "v", sizes)
+    return expr(sit, ops + [(v, "".join(batch + cols))], batch + rows)
+
+
 for _nb in (0, 1, 2):
     scn(name=f"LinearLayerTT.forward:d2,batch{_nb}", func="nn.LinearLayerTT.forward", props=("C20",),
         args=(lambda nb: (lambda it: (_layer_concrete(it, 2), [_layer_input(it, 2, nb)], {})))(_nb),
         check=value_check(_layer_expected(2, _nb), f"layer output for {_nb} batch axes"),
         waive=(("elementwise +", "the bias is created by the layer itself as zeros(size_out): its shape equals the produced modes by construction (REGISTER rule)"),))
+
+
+# orders 1 and 3 (an order-one layer is a plain matrix: the transposition of a shortcut shows only there)
+for _d, _nb in ((1, 0), (1, 1), (1, 2), (3, 1)):
+    scn(name=f"LinearLayerTT.forward:d{_d},batch{_nb}", func="nn.LinearLayerTT.forward", props=("C20",),
+        args=(lambda d, nb: (lambda it: (_layer_concrete(it, d), [_layer_input(it, d, nb)], {})))(_d, _nb),
+        check=value_check(_layer_expected(_d, _nb), f"order-{_d} layer output for {_nb} batch axes"),
+        waive=(("elementwise +", "the bias is created by the layer itself as zeros(size_out): its shape equals the produced modes by construction (REGISTER rule)"),))
+for _d, _nb in ((1, 0), (1, 2), (2, 1)):
+    scn(name=f"matmul:ttm@dense:d{_d},batch{_nb}", func=TT + "__matmul__", props=("C04",),
+        args=(lambda d, nb: (lambda it: (make_tt(it, "W", True, d), [_layer_input(it, d, nb)], {})))(_d, _nb),
+        check=value_check((lambda d, nb: (lambda sit, out: _layer_expected_nobias(sit, d, nb)))(_d, _nb), f"order-{_d} operator times a dense tensor with {_nb} batch axes"))
